@@ -696,9 +696,14 @@ def idle_scenario(ctx, fl, sc, no, T, aborts, j, longmod, good, ist):
                 t0 = time.monotonic()
                 while dm.alive() and time.monotonic() - t0 < T + 20:
                     time.sleep(0.05)
+                dm.wait_dead(10.0)          # the leader may already be a zombie while a detached thread is still exiting
                 with _VLOCK:
                     if not dm.alive() and dm.returncode() == 0:
                         ist["idle_exits_observed"] += 1
+                    else:
+                        ist.setdefault("idle_exit_not_seen", []).append(
+                            {"alive": dm.alive(), "rc": dm.returncode(), "waited_s": round(time.monotonic() - t0, 1),
+                             "status": str(vc.status(ddir, 5.0).status), "log_tail": dm.stderr_text(400)})
             return
         finally:
             dm.stop(grace=0.5)
@@ -1160,7 +1165,8 @@ def _run(ctx, fl, sc, lanes):
     ctx.require(ctx.violations or (ist["with_aborts"] >= 2 and ist["control"] >= 1),
                 "idle-timeout family: too few scenarios in which the long sessions outlived the timeout (%s)" % ist)
     ctx.require(ctx.violations or ist["idle_exits_observed"] >= 1,
-                "idle-timeout family: the control daemon never shut down by itself, so the idle timeout was not shown to be armed")
+                "idle-timeout family: the control daemon never shut down by itself, so the idle timeout was not shown to be armed: %s"
+                % ist.get("idle_exit_not_seen"))
     samples = [{"sequence": list(seq), "connections": conc} for _, seq, conc in seqs[:5]]
     return ctx.finish({
         "evaluations": stats["sequences"] + stats["bursts"] + ist["scenarios"] + xst["fd_scenarios"] + xst["inject_scenarios"],
